@@ -3,6 +3,9 @@ import TempestVerif.Model.FS
 import TempestVerif.Model.Checkpoint
 import TempestVerif.Gen.Checkpoint
 import TempestVerif.Gen.CheckpointSM
+import TempestVerif.Gen.CheckpointCore
+import TempestVerif.Model.Resume
+import TempestVerif.Model.Cadence
 /- line-protocol handlers of property C08 (checkpoints).
 
    fs.crash proto=<direct|temprename> old=<none|bytes> payload=<bytes>
@@ -25,6 +28,18 @@ import TempestVerif.Gen.CheckpointSM
    ckpt.run cur=… hist=… ndim=… iters=<ncalls>;<k:v,…>|<ncalls>;<k:v,…>…
        → the state after running the iterations from the given state (same output format) or `error`
    ckpt.cadence t0=<int> k=<int> n=<nat>       → <periodic iteration numbers> final=<0|1>
+   core.gen                                    → keys=<extra keys of the checkpoint dictionary> load=<key:guard:action;…> attrs=<self attributes of SamplerCore>
+                                                 loadrnd=<np.random calls of load> epilogue=<…> ntotal=<0|1>   (all regenerated from core.py)
+   core.roundtrip cur= hist= ndim= ntotal=<val|absent> logzerr=<val|absent> rng=<nat> fndim=<n> frng=<nat> fntotal=<val|absent>
+                  flogzerr=<val|absent> [drop=<k,k>] [rngnone=1] [nT=<int> [manual=1 frs=<int>]]
+       → `loadCore` (with nT: `prologueResume`; with manual=1: `loadCore` then `prologueRun` = load_state(); run()) of the fresh world (StateManager(fndim), generator frng, attributes fntotal/flogzerr,
+         components "fresh") on `saveDict` of the written world (components "writer"); `drop` removes top-level keys (older files):
+         <state> ntotal=<val|absent> logzerr=<val|absent> rng=<nat> comp=<fresh|writer> t0=<int>   or `error`
+   resume.comp ce=<n> clustering=<0|1> iter0=<n> sched=<b,b,…> r=<n>
+       → `same` | `differ` (clusterer fit/predict events of the run resumed before schedule position r vs the uninterrupted run;
+         Model.Cadence) followed by verdict=<ok|bad>
+   fs.samplercrash old=<none|bytes> tmpold=<none|bytes> payload=<bytes>
+       → crash contents under the final name of `samplerSave` (format of fs.crash) then ` after=<final content>/<temp content>`
 -/
 namespace Drv.C08
 open Drv
@@ -266,6 +281,68 @@ def handle (cmd : String) (args : List (String × String)) : Option String :=
     | some t0, some k, some n =>
       if k ≤ 0 then some "bad-op" else
       some s!"{showList toString (Model.Checkpoint.periodicSaves t0 k n)} final={showBool Gen.Checkpoint.finalSave}"
+    | _, _, _ => some "bad-op"
+  | "core.gen" =>
+    let lt := ";".intercalate (Gen.Checkpoint.loadTable.map fun e => s!"{e.1}:{e.2.1}:{e.2.2}")
+    some s!"keys={",".intercalate (Gen.Checkpoint.ckptExtraKeys.map (·.1))} load={lt} attrs={",".intercalate Gen.Checkpoint.coreSelfAttrs} loadrnd={",".intercalate Gen.Checkpoint.loadRandomCalls} epilogue={",".intercalate Gen.Checkpoint.runEpilogueOrder} ntotal={showBool Gen.Checkpoint.runNTotalAssign} loadreads={",".intercalate Gen.Checkpoint.loadKeysRead}"
+  | "core.roundtrip" =>
+    let attr? (k : String) : Option (Option Model.Checkpoint.Val) :=
+      match getArg args k with
+      | some "absent" => some none
+      | some v => (parseVal? v).map some
+      | none => none
+    match parseState? args, attr? "ntotal", attr? "logzerr", (getArg args "rng").bind String.toNat?,
+          (getArg args "fndim").bind String.toNat?, (getArg args "frng").bind String.toNat?, attr? "fntotal", attr? "flogzerr" with
+    | some s, some nt, some le, some g, some fn, some fg, some fnt, some fle =>
+      let w : Model.Resume.World Nat String := ⟨⟨s, "writer", none, nt, le, 0⟩, g⟩
+      let frs : Option Int := (getArg args "frs").bind String.toInt?
+      let f : Model.Resume.World Nat String := ⟨⟨Model.Checkpoint.init fn, "fresh", frs, fnt, fle, 0⟩, fg⟩
+      let d0 : Model.Resume.CkDict Nat Unit := Model.Resume.saveDict (fun _ => ()) w
+      let drop : List String := ((getArg args "drop").bind (parseList? some)).getD []
+      let d1 : Model.Resume.CkDict Nat Unit :=
+        { d0 with nTotal := if drop.contains "n_total" then none else d0.nTotal
+                  logzErr := if drop.contains "logz_err" then none else d0.logzErr
+                  rngState := if drop.contains "rng_state" then none else
+                              (if getArg args "rngnone" == some "1" then some none else d0.rngState)
+                  sampler := if drop.contains "sampler" then none else d0.sampler
+                  randomState := if drop.contains "random_state" then none else d0.randomState }
+      let r? := match (getArg args "nT").bind String.toInt? with
+        | some nT =>
+          if getArg args "manual" == some "1" then
+            -- `load_state(path); run(n_total=nT)`: a reseed would show as generator 1000000 + random_state
+            (Model.Resume.loadCore f d1).bind fun w1 => Model.Resume.prologueRun (fun r => 1000000 + r.toNat) w1 nT
+          else Model.Resume.prologueResume f d1 nT
+        | none => Model.Resume.loadCore f d1
+      match r? with
+      | some r =>
+        let sv : Option Model.Checkpoint.Val → String := fun a => match a with | some v => showVal v | none => "absent"
+        some s!"{showState r.core.sm} ntotal={sv r.core.nTotal} logzerr={sv r.core.logzErr} rng={r.rng} comp={r.core.comp} t0={r.core.t0}"
+      | none => some "error"
+    | _, _, _, _, _, _, _, _ => some "bad-op"
+  | "resume.comp" =>
+    match (getArg args "ce").bind String.toNat?, getArg args "clustering", (getArg args "iter0").bind String.toNat?,
+          (getArg args "sched").bind (parseList? fun b => if b == "1" then some true else if b == "0" then some false else none),
+          (getArg args "r").bind String.toNat? with
+    | some ce, some cl, some i0, some sched, some r =>
+      if ce == 0 then some "bad-op" else
+      let c : Model.Cadence.Cfg := { clusterEvery := ce, clustering := cl == "1", useFlag := true }
+      let a := Model.Cadence.run c i0 (Model.Cadence.withResume sched (some r))
+      let b := Model.Cadence.run c i0 (Model.Cadence.withResume sched none)
+      let nf : List Model.Cadence.Event → List Model.Cadence.Event := fun t => t.filter (· != Model.Cadence.Event.fresh)
+      let same := nf a.trace == nf b.trace
+      let ok := a.verdict == Model.Cadence.Verdict.ok && b.verdict == Model.Cadence.Verdict.ok
+      some s!"{if same then "same" else "differ"} verdict={if ok then "ok" else "bad"}"
+    | _, _, _, _, _ => some "bad-op"
+  | "fs.samplercrash" =>
+    match parseOptBytes? (getArg args "old"), parseOptBytes? (getArg args "tmpold"), (getArg args "payload").bind parseBytes? with
+    | some old, some tmpold, some payload =>
+      let final := "d/final"
+      let fs0 : Model.FS.FS := (match old with | some b => [(final, b)] | none => []) ++
+        (match tmpold with | some b => [(Model.FS.tmpOf final, b)] | none => [])
+      let ops := Model.FS.samplerSave "d/" final payload
+      let fin := Model.FS.run fs0 ops
+      some ("|".intercalate ((canonical ((Model.FS.crashStates ops fs0).map (Model.FS.lookup final))).map showContent)
+            ++ s!" after={showContent (Model.FS.lookup final fin)}/{showContent (Model.FS.lookup (Model.FS.tmpOf final) fin)}")
     | _, _, _ => some "bad-op"
   | _ => none
 
